@@ -61,7 +61,10 @@ def impl_complex(case, w, peak):
     from CircuitCalculator.Circuit.solution import ComplexSolution
     from CircuitCalculator.Circuit.circuit import transform_circuit
     try:
-        sol = ComplexSolution(circuit, w=w, peak_values=peak)
+        # the flag in the forms callers pass it (a Python bool, the numpy bool of a comparison, 0 / 1); chosen by the frequency, so a replay
+        # reproduces it
+        flag = [bool(peak), np.bool_(peak), int(bool(peak))][int(abs(w) * 1000) % 3]
+        sol = ComplexSolution(circuit, w=w, peak_values=flag)
         net = sol._solution.network
         out = {'phi': {}, 'v': {}, 'i': {}, 'p': {}}
         for n in net.node_labels:
